@@ -59,6 +59,7 @@ type Event struct {
 	OpStep int64  `json:"os"`
 	Site   uint32 `json:"site,omitempty"`
 	Step   int64  `json:"step,omitempty"`
+	Arg    int64  `json:"arg,omitempty"`
 }
 
 // Op is one operation of a task in a run.
@@ -85,19 +86,21 @@ type TaskRec struct {
 // PolicyRec describes a seeded policy (used for prefix runs and informational on the
 // failing run, whose schedule is given explicitly by Events).
 type PolicyRec struct {
-	Kind      string  `json:"kind"`
-	Seed      uint64  `json:"seed"`
-	PShared   float64 `json:"p_shared,omitempty"`
-	PAPI      float64 `json:"p_api,omitempty"`
-	PPlain    float64 `json:"p_plain,omitempty"`
-	PBound    float64 `json:"p_bound,omitempty"`
-	Depth     int     `json:"depth,omitempty"`
-	EstSteps  int64   `json:"est_steps,omitempty"`
-	HerdAt    int64   `json:"herd_at,omitempty"`
-	StallTask int     `json:"stall_task,omitempty"`
-	StallOp   int32   `json:"stall_op,omitempty"`
-	StallStep int64   `json:"stall_step,omitempty"`
-	GCSteps   []int64 `json:"gc_steps,omitempty"`
+	Kind        string  `json:"kind"`
+	Seed        uint64  `json:"seed"`
+	PShared     float64 `json:"p_shared,omitempty"`
+	PAPI        float64 `json:"p_api,omitempty"`
+	PPlain      float64 `json:"p_plain,omitempty"`
+	PBound      float64 `json:"p_bound,omitempty"`
+	Depth       int     `json:"depth,omitempty"`
+	EstSteps    int64   `json:"est_steps,omitempty"`
+	HerdAt      int64   `json:"herd_at,omitempty"`
+	StallTask   int     `json:"stall_task,omitempty"`
+	StallOp     int32   `json:"stall_op,omitempty"`
+	StallStep   int64   `json:"stall_step,omitempty"`
+	GCSteps     []int64 `json:"gc_steps,omitempty"`
+	ClockSteps  []int64 `json:"clock_steps,omitempty"`
+	ClockDeltas []int64 `json:"clock_deltas_ns,omitempty"`
 }
 
 // RunRec is one simulated run: workload + how it is scheduled.
